@@ -17,6 +17,26 @@ fn r_candles() -> Vec<Candle> {
 	vec![c(1.0, 1.1, 0.9, 1.0, 1.3), c(1.0, 1.7, 0.7, 1.3, 0.7), c(1.3, 1.3, 0.7, 0.9, 2.1), c(0.9, 1.7, 0.9, 1.7, 0.9), c(1.7, 1.7, 1.7, 1.7, 1.1), c(1.1, 1.3, 1.0, 1.1, 0.0)]
 }
 
+/// valid candles whose high-low spread is 1..3 units in the last place (quotients by the spread must
+/// stay in range however the spread is formed)
+fn ulp_candles() -> Vec<Candle> {
+	let up = |x: ValueType, k: u8| {
+		let mut y = x;
+		for _ in 0..k {
+			y = ValueType::from_bits(y.to_bits() + 1);
+		}
+		y
+	};
+	let l: ValueType = 1.25;
+	vec![
+		Candle { open: l, high: up(l, 3), low: l, close: l, volume: 1.0 },
+		Candle { open: up(l, 1), high: up(l, 1), low: l, close: up(l, 1), volume: 2.0 },
+		Candle { open: up(l, 1), high: up(l, 2), low: l, close: up(l, 1), volume: 1.0 },
+		Candle { open: l, high: l, low: l, close: l, volume: 1.0 },
+		alpha::candle(1.0, 1.7, 0.7, 1.3, 0.7),
+	]
+}
+
 fn span_of(c: &dyn IndCfg) -> usize {
 	let mut n = 1usize;
 	for (_, v) in json_map(&c.to_json().unwrap_or_default()) {
@@ -429,7 +449,7 @@ fn main() {
 			}
 		}
 		let spans: Vec<usize> = cfgs.iter().map(|c| span_of(c.as_ref()).min(60)).collect();
-		for (tag, al) in [("rounding-active", r_candles()), ("dyadic", alpha::k_candles())] {
+		for (tag, al) in [("rounding-active", r_candles()), ("dyadic", alpha::k_candles()), ("ulp-spreads", ulp_candles())] {
 			let few = cfgs.len() <= 14;
 			let d1 = if is_mon { if thorough { 5 } else if few && tag == "rounding-active" { 4 } else if few || tag == "rounding-active" { 3 } else { 2 } } else if thorough { 3 } else { 2 };
 			let sys = RangeSys { name: format!("{name}/regimes/{tag}"), cfgs: cfgs.iter().map(|c| c.boxed_clone()).collect(), spans: spans.clone(), alphabet: al, d1, d3: if thorough { 3 } else { 2 } };
